@@ -1,6 +1,7 @@
 SPECIFICATION Spec
 CONSTANT MaxV = 5
 CONSTANT M0s = {2, 3, 4, 5}
+CONSTANT MaxUses = 1
 CONSTANT PinnedDedup = TRUE
 INVARIANT C09_Cliques
 INVARIANT C09_Disjoint
